@@ -50,7 +50,7 @@ class Probe:
         self.before = before
         self.record = record
         self.record_sched = record_sched
-        self.acts = []      # (k, time, id(target), signal type name)
+        self.acts = []      # (k, time, id(target), signal type name, qualname of the coroutine)
         self.scheds = []    # (k_at_call, due time or None(now), id(target), id(signal) or 0)
         self.step_time = None
         self.step_count = 0
@@ -92,7 +92,8 @@ def _run_coroutine(self, target, signal=None):
         p.before(p.k, self)
     if p.record:
         p.acts.append((p.k, now, id(target),
-                       None if signal is None else type(signal).__name__))
+                       None if signal is None else type(signal).__name__,
+                       getattr(target, '__qualname__', '')))
     p.k += 1
     return _ORIG_RUN(self, target, signal)
 
